@@ -56,7 +56,8 @@ class Pipeline(Machine):
             "fast_stack": True,
             "clock": "advancing",
             "faults_enabled": s.chance(0.5),
-            "fault_kinds": s.subset(["crash", "enospc", "eio_read", "short_read", "short_write", "open_fail", "stat_fail"], 0.6),
+            "fault_kinds": s.subset(["crash", "enospc", "eio_read", "short_read", "short_write", "write_fail", "open_fail", "stat_fail"]
+                                    + (["mutate", "mutate"] if prop == "C05" else []), 0.6),
             "rerun_after_crash": s.chance(0.8),
             "relative_paths": s.chance(0.3),
             # referenced files reached through symbolic links (a "current.bin -> ../store/app_v2.bin" build tree)
@@ -101,7 +102,7 @@ class Pipeline(Machine):
                     descs.append(ops[-1])
                 arts.append(out)
             elif r < 0.50:
-                ops.append({"kind": "hsign", "i": i, "src": s.choice(arts), "out": f"a{i}", "alg": s.choice(["es-256", "eddsa", "es-384"]),
+                ops.append({"kind": "hsign", "i": i, "src": s.choice(arts), "out": f"a{i}", "alg": s.choice(["es-256", "eddsa", "es-384", "es-521", "eddsa448"]),
                             "kid": s.choice([0, 24, 0x7FFFFFE0])})
                 arts.append(f"a{i}")
             elif r < 0.58:
@@ -139,7 +140,11 @@ class Pipeline(Machine):
             return []
         out = []
         for op in s.sample(cands, max(1, len(cands) // 3)):
-            f = self.aim_fault(s, op["i"], counts, s.choice(kinds))
+            kind = s.choice(kinds)
+            if kind == "mutate":
+                f = self._aim_mutation(s, op, counts)
+            else:
+                f = self.aim_fault(s, op["i"], counts, kind)
             if f:
                 out.append(f)
         if "stat_fail" in kinds:
@@ -158,6 +163,28 @@ class Pipeline(Machine):
                             out.append({"op": op["i"], "kind": "stat_fail", "at": j, "errno": s.choice([_errno.EACCES, _errno.EIO])})
                         j += 1
         return out
+
+    @staticmethod
+    def _aim_mutation(s, op, counts):
+        """Another process rewrites a referenced file while `create` is using it: between the first and the last access
+        (size test, digest read, payload read) the fault-free pass made to that file."""
+        if op["kind"] != "create":
+            return None
+        c = counts.get(op["i"]) or counts.get(str(op["i"])) or {}
+        # only while the tool does not hold the file open (a file rewritten in place under an open descriptor gives a
+        # torn read that no reader can avoid): right before a stat or an open of the file that is not its first access
+        spans = {}
+        positions = [e for e in c.get("ev", []) if e[0] not in ("close", "mutate")]  # logged, but not fault positions
+        for j, e in enumerate(positions):
+            if e[0] in ("stat", "open_r", "read") and (e[1] or "").startswith("files/"):
+                spans.setdefault(e[1], []).append((j, e[0]))
+        cands = {p: [j for j, k in js[1:] if k in ("stat", "open_r")] for p, js in spans.items()}
+        cands = {p: js for p, js in cands.items() if js}
+        if not cands:
+            return None
+        rel = s.choice(sorted(cands))
+        return {"op": op["i"], "kind": "mutate", "at": s.choice(cands[rel]), "rel": rel,
+                "how": s.choice(["shorter", "shorter", "longer", "same_size", "empty"])}
 
     # -- model ------------------------------------------------------------------------------------------------------------
     def new_model(self, host, plan, prop):
@@ -364,12 +391,36 @@ class Pipeline(Machine):
             return world.create(host, copy.deepcopy(desc), out_rel, fmt=op["fmt"], entry=op["entry"], faults=fl,
                                 desc_rel=f"{op['desc']}.{op['fmt']}")
 
+        mutated = None  # (blob name, old bytes) once a concurrent writer replaced a referenced file during the operation
+        mut = None
+        prepared = []
+        for f in faults:
+            if f.get("kind") == "mutate":
+                name = next((n for n, r in model["blob_rel"].items() if r == f["rel"]), None)
+                if name is None or mut is not None:
+                    continue
+                old_b = model["blobs"][name]
+                n_new = {"shorter": max(0, len(old_b) // 3), "longer": len(old_b) * 2 + 7, "same_size": len(old_b), "empty": 0}[f["how"]]
+                new_b = world.blob(host.seed, f"{name}-during{op['i']}", n_new)
+                if new_b == old_b:
+                    continue
+                f = dict(f, _data=new_b)
+                mut = (name, old_b, new_b)
+            prepared.append(f)
+        faults = prepared
         o = run(faults)
         self.note(model, o)
         faulted = bool(o.fired)
+        if mut is not None and any(fk[0] == "mutate" for fk in o.fired):
+            mutated = (mut[0], mut[1])
+            model["blobs"][mut[0]] = mut[2]
+            model["mutated_since"].add(mut[0])
+            ex["file_rewritten_during_create"] = ex.get("file_rewritten_during_create", 0) + 1
+            model["_nontrivial"] = True
         if o.cls == "crash":
             if host.swarm.get("rerun_after_crash"):
                 o = run(())
+                mutated = None
                 ex["reruns_after_crash"] += 1
                 faulted = False
                 model["_nontrivial"] = True
@@ -400,15 +451,25 @@ class Pipeline(Machine):
             return [violation("C05", "output-unreadable", op["i"], repr(e))]
         # the dependency parameters were put at the head of suit-validate: find them by position in document order
         exp_list = self._expected_params(host, model, desc, refs, dep_exp)
+        # a file rewritten by another process during the operation: every fact taken from it must describe one of the two
+        # versions that existed - the old or the new one - never a mixture (new bytes padded or cut to the old size)
+        alt_list = None
+        if mutated:
+            alt_model = dict(model, blobs=dict(model["blobs"], **{mutated[0]: mutated[1]}))
+            alt_list = self._expected_params(host, alt_model, desc, refs, dep_exp)
         got_list = [(pid, node) for pid, node in params]
         if [p for p, _ in exp_list] != [p for p, _ in got_list]:
             return [violation("C05", "reference-dropped-or-duplicated", op["i"],
                               f"parameters 3/14/19 in document order are {[p for p, _ in got_list]}, the description has "
                               f"{[p for p, _ in exp_list]}")]
-        for (pid, exp), (_, node) in zip(exp_list, got_list):
+        for n_ref, ((pid, exp), (_, node)) in enumerate(zip(exp_list, got_list)):
             ex["refs_checked"] += 1
             ex["refs_by_form"][exp["form"]] = ex["refs_by_form"].get(exp["form"], 0) + 1
             v = self._check_param(op, pid, exp, node)
+            if v and alt_list is not None and self._check_param(op, pid, alt_list[n_ref][1], node) is None:
+                v = None
+            if v and mutated and exp["form"].startswith("envelope"):
+                v = None  # a dependency built from the rewritten file: "created alone" was made from the old version
             if v:
                 vs.append(v)
                 break
@@ -418,6 +479,8 @@ class Pipeline(Machine):
         for pname, (form, val) in pay_exp.items():
             ex["payloads_checked"] += 1
             want = model["blobs"][val] if form == "file" else bytes.fromhex(val)
+            if mutated and form == "file" and val == mutated[0] and members.get(pname) == mutated[1]:
+                continue  # the version the file held when the operation started
             if members.get(pname) != want:
                 tags = []
                 if form == "file" and all(c in "0123456789abcdefABCDEF" for c in payloads_written.get(pname, "/")):
@@ -430,11 +493,15 @@ class Pipeline(Machine):
             ex["dependencies_checked"] += 1
             if op["dep_depth"] > ex["max_dependency_depth"]:
                 ex["max_dependency_depth"] = op["dep_depth"]
-            if members.get(dname) != de["alone"]:
+            if members.get(dname) != de["alone"] and not mutated:
                 vs.append(violation("C05", "dependency-embedded-identically", op["i"],
                                     f"dependency {dname} ({de['form']}) embedded as {None if members.get(dname) is None else len(members[dname])} "
                                     f"bytes, created alone it has {len(de['alone'])} bytes (or differs in content)"))
-        if not vs and op["entry"] != "obj":
+        if vs and mutated:
+            for v in vs:
+                v["detail"] += (f" [file {mutated[0]} was rewritten by another process during the operation: "
+                                f"{len(mutated[1])} -> {len(model['blobs'][mutated[0]])} bytes; neither version matches]")
+        if not vs and op["entry"] != "obj" and not mutated:
             vs = self.dirty_rerun(host, model, "C05", op, [out_rel], lambda: run(()), "envelope-describes-files-exactly")
         return vs
 
@@ -553,8 +620,10 @@ class Pipeline(Machine):
             return []
         data = host.read(a["rel"])
         try:
-            key = world.make_private_key(host.seed, "hs" + op["alg"], "ed25519" if op["alg"] == "eddsa" else op["alg"])
-            out = world.harness_sign(data, op["alg"], key, op["kid"], Stream(host.seed, "hsig", op["i"]))
+            kkind = {"eddsa": "ed25519", "eddsa448": "ed448"}.get(op["alg"], op["alg"])
+            key = world.make_private_key(host.seed, "hs" + op["alg"], kkind)
+            out = world.harness_sign(data, "eddsa" if op["alg"] == "eddsa448" else op["alg"], key, op["kid"],
+                                     Stream(host.seed, "hsig", op["i"]))
         except (cborr.CborError, IndexError, AttributeError):
             return []
         rel = op["out"] + ".suit"
